@@ -412,8 +412,10 @@ func H_C03_duplicate_keys_mixed_kinds() {
 		{kind: TypeList}, {kind: TypeList, elem: []mval{{kind: TypeInt, i: 3}}}}
 	a := nondetIntRange(0, len(vals)-1)
 	b := nondetIntRange(0, len(vals)-1)
-	k := hAscii(1)
-	verifAssume(verifAnd(k[0] != '"', k[0] != '\\'))
+	k := hAscii(nondetIntRange(0, 1)) // the empty key is a legal key
+	if len(k) == 1 {
+		verifAssume(verifAnd(k[0] != '"', k[0] != '\\'))
+	}
 	text := `{"` + k + `":` + vals[a] + `,"z":0,"` + k + `":` + vals[b] + `}`
 	want := mval{kind: TypeObject}
 	if k == "z" {
